@@ -54,7 +54,7 @@ def main():
             try:
                 runs = []
                 detected = None
-                for tier in ("quick", "thorough"):
+                for tier in os.environ.get("SEED_TIERS", "quick thorough").split():
                     t0 = time.time()
                     rc, o = sh(f"cd {VERIF} && ./check {pid} {tier}", timeout=7200)
                     lines = [l for l in o.split("\n") if l.strip()]
